@@ -10,7 +10,9 @@ from fractions import Fraction
 
 import numpy
 
-TOL = 1e-3          # absolute, on components of unit vectors (float32 data)
+TOL = 1e-3          # absolute, on components of unit vectors (float32 data), scaled by conditioning
+DIR_TOL = 1e-4      # direction of an implicit face normal
+UNIT_TOL = 1e-5     # | |n| - 1 | of every normal / tangent the property calls a unit vector
 MIN_SUM = 0.1       # a vertex whose summed unit normals nearly cancel is ill-conditioned: no demand
 
 
@@ -140,6 +142,12 @@ def run_case(case):
                 if L < MIN_SUM:
                     continue
                 exp = sums[v] / L
+                nl = math.sqrt(float(numpy.dot(N[v], N[v]))) if numpy.all(numpy.isfinite(N[v])) else float('nan')
+                if not (abs(nl - 1.0) <= UNIT_TOL):
+                    fail('vertex-unit', where,
+                         'vertex %d (in %d triangle corners, sequence %r, scale 2^%s): generated normal %s has length %r'
+                         % (v, cnt[v], seq, case.get('scale_exp', 0), N[v].tolist(), nl), {'vertex': v})
+                    break
                 if not numpy.all(numpy.abs(N[v] - exp) <= TOL * max(1.0, cnt[v] / (4 * L))):
                     fail('vertex-sum', where,
                          'vertex %d (in %d triangle corners, sequence %r, scale 2^%s): generated normal %s, normalised '
@@ -177,9 +185,12 @@ def run_case(case):
                     face.append(rows)
                     if rows.shape != (3, 3):
                         fail('face-normal', site, 'Triangle.normals has shape %r' % (rows.shape,))
-                    elif fn[i] is not None and not numpy.all(numpy.abs(rows - fn[i]) <= TOL):
+                    elif fn[i] is not None and not numpy.all(numpy.abs(rows - fn[i]) <= DIR_TOL):
                         fail('face-normal', site, 'triangle %d (scale 2^%s): implicit normals %s, unit right-hand normal is %s'
                              % (i, case.get('scale_exp', 0), rows.tolist(), fn[i].tolist()))
+                    elif fn[i] is not None and not numpy.all(numpy.abs(numpy.sqrt((rows * rows).sum(axis=1)) - 1.0) <= UNIT_TOL):
+                        fail('face-normal-unit', site, 'triangle %d (scale 2^%s): implicit normals %s have lengths %s'
+                             % (i, case.get('scale_exp', 0), rows.tolist(), numpy.sqrt((rows * rows).sum(axis=1)).tolist()))
                 obs['face'] = exact_rows(numpy.array(face).reshape(-1, 3)) if face else ([], 1)
             except Exception as e:  # noqa
                 fail('face-normal', site, 'iterating triangles raised %r' % (e,))
@@ -238,7 +249,7 @@ def run_case(case):
                 scale = max(1e-9, math.sqrt(float(numpy.dot(tan[flat[k]], tan[flat[k]]))))
                 degenerate = math.sqrt(float(numpy.dot(ref, ref))) < 1e-2 * scale or scale < 1e-6 * extent
                 L = math.sqrt(float(numpy.dot(row, row))) if numpy.all(numpy.isfinite(row)) else float('nan')
-                if not (abs(L - 1.0) <= TOL):
+                if not (abs(L - 1.0) <= UNIT_TOL):
                     if degenerate:
                         continue
                     fail('tangent-unit', site, 'corner %d: tangent %s has length %r' % (k, row.tolist(), L))
